@@ -393,6 +393,7 @@ func (dr *dirRepo) blobCreate(locked bool, opts ...BlobOpt) (BlobCreator, string
 			// the push is acknowledged without a new copy, the existing one counts as uploaded now for the GC grace period
 			now := time.Now()
 			_ = os.Chtimes(blobName, now, now)
+			dr.timeBlob = now
 			return nil, "", types.ErrBlobExists
 		}
 	}
